@@ -437,6 +437,11 @@ func Harness_C02_Mixins() {
 	if baseHasExtra {
 		base += "    !type Extra:\n        x <: int\n"
 	}
+	// a table of the mixed-in application whose fields refer to a field / a type of it
+	baseHasRefs := nd.Bool("base-declares-table-with-references")
+	if baseHasRefs {
+		base += "    !table Order:\n        item <: Item.code\n        whole <: Item\n"
+	}
 	host := "Shop:\n    -|> Base\n"
 	if hostHasItem {
 		host += "    !type Item:\n        id <: int\n        label <: string?\n"
@@ -468,6 +473,16 @@ func Harness_C02_Mixins() {
 	if baseHasExtra {
 		want++
 	}
+	if baseHasRefs {
+		want++
+		for _, app := range []*sysl.Application{b, shop} {
+			fs := app.Types["Order"].GetRelation().GetAttrDefs()
+			item, whole := fs["item"].GetTypeRef().GetRef(), fs["whole"].GetTypeRef().GetRef()
+			nd.Assert("mixins:field-reference-in-mixed-in-table", len(fs) == 2 && item != nil && item.GetAppname() == nil &&
+				len(item.Path) == 2 && item.Path[0] == "Item" && item.Path[1] == "code")
+			nd.Assert("mixins:type-reference-in-mixed-in-table", whole != nil && whole.GetAppname() == nil && len(whole.Path) == 1 && whole.Path[0] == "Item")
+		}
+	}
 	nd.Assert("mixins:exactly-own-plus-mixed-in-types", len(shop.Types) == want)
 	item := shop.Types["Item"].GetTuple().GetAttrDefs()
 	if hostHasItem {
@@ -483,4 +498,97 @@ func Harness_C02_Mixins() {
 	}
 	bitem := b.Types["Item"].GetTuple().GetAttrDefs()
 	nd.Assert("mixins:mixed-in-application-unchanged", len(bitem) == 1 && bitem["code"] != nil && len(shop.Mixin2) == 1)
+}
+
+// events and subscriptions: a publisher's event (with a body or "...") and up to two
+// subscribers declared before and/or after it: the subscriber gets an endpoint
+// "Pub -> Evt" with the publisher as source and its own statements; the event lists its
+// own statements in order and exactly one call per subscriber, wherever the subscriber
+// stands in the text.
+func Harness_C02_Events() {
+	before := nd.Bool("subscriber-before-the-publisher")
+	after := nd.Bool("subscriber-after-the-publisher")
+	body := nd.IntRange("event-body-statements", 0, 2) // 0: "..."
+	text := ""
+	if before {
+		text += "SubA:\n    Pub -> Evt:\n        handle it\n\n"
+	}
+	text += "Pub:\n    <-> Evt:\n"
+	switch body {
+	case 0:
+		text += "        ...\n"
+	case 1:
+		text += "        first step\n"
+	default:
+		text += "        first step\n        second step\n"
+	}
+	if after {
+		text += "\nSubB:\n    Pub -> Evt:\n        handle it too\n"
+	}
+	mod, err, crashed, _ := feCompileText(text)
+	nd.Assert("events:compiles", !crashed && err == nil && mod != nil)
+	if crashed || err != nil || mod == nil {
+		return
+	}
+	pub := mod.Apps["Pub"]
+	napps := 1
+	for _, sub := range []struct {
+		name    string
+		present bool
+		action  string
+	}{{"SubA", before, "handle it"}, {"SubB", after, "handle it too"}} {
+		app := mod.Apps[sub.name]
+		if !sub.present {
+			nd.Assert("events:no-undeclared-subscriber", app == nil)
+			continue
+		}
+		napps++
+		nd.Assert("events:subscriber-application", app != nil)
+		if app == nil {
+			continue
+		}
+		ep := app.Endpoints["Pub -> Evt"]
+		nd.Assert("events:subscription-endpoint", ep != nil && len(app.Endpoints) == 1 && ep.GetSource() != nil &&
+			len(ep.Source.Part) == 1 && ep.Source.Part[0] == "Pub")
+		if ep != nil {
+			nd.Assert("events:subscription-statements", len(ep.Stmt) == 1 && ep.Stmt[0].GetAction().GetAction() == sub.action)
+		}
+	}
+	nd.Assert("events:exactly-the-declared-applications", len(mod.Apps) == napps)
+	ev := pub.GetEndpoints()["Evt"]
+	nd.Assert("events:event-endpoint", pub != nil && ev != nil && ev.IsPubsub && len(pub.Endpoints) == 1)
+	if ev == nil {
+		return
+	}
+	var own []string
+	calls := map[string]int{}
+	for _, s := range ev.Stmt {
+		if c := s.GetCall(); c != nil {
+			if len(c.GetTarget().GetPart()) == 1 && c.Endpoint == "Pub -> Evt" {
+				calls[c.Target.Part[0]]++
+			} else {
+				calls["?"]++
+			}
+			continue
+		}
+		own = append(own, s.GetAction().GetAction())
+	}
+	wantOwn := [][]string{{"..."}, {"first step"}, {"first step", "second step"}}[body]
+	okOwn := len(own) == len(wantOwn)
+	for i := range wantOwn {
+		if i < len(own) && own[i] != wantOwn[i] {
+			okOwn = false
+		}
+	}
+	nd.Assert("events:own-statements-in-order", okOwn)
+	wantCalls := 0
+	if before {
+		wantCalls++
+		nd.Assert("events:one-call-per-subscriber", calls["SubA"] == 1)
+	}
+	if after {
+		wantCalls++
+		nd.Assert("events:one-call-per-subscriber", calls["SubB"] == 1)
+	}
+	nd.Assert("events:no-other-calls", len(calls) == wantCalls)
 }
